@@ -1073,9 +1073,20 @@ def world_sources(ctx, rng, tag, nsrc, big, forced=()):
                     f.create_dataset(kk, data=v)
         elif kind == "fits":
             src["path"] = base + ".fits"
-            afits.BinTableHDU.from_columns([afits.Column(name="ra", format="D", array=cols["ra"]),
-                                            afits.Column(name="dec", format="D", array=cols["dec"]),
-                                            afits.Column(name="pid", format="K", array=cols["pid"])]).writeto(src["path"], overwrite=True)
+
+            def table(c):
+                return afits.BinTableHDU.from_columns([afits.Column(name="ra", format="D", array=c["ra"]),
+                                                       afits.Column(name="dec", format="D", array=c["dec"]),
+                                                       afits.Column(name="pid", format="K", array=c["pid"])])
+            # every other FITS source keeps its table behind 1-2 other tables with the same columns but other lengths (shorter and
+            # longer) and foreign records: the extension named to the reader is the one that counts, for its length too
+            ndecoy = rng.choice([0, 1, 2]) if rng.random() < 0.7 else 0
+            decoys = []
+            for d in range(ndecoy):
+                m = max(1, (src["n"] // 3) if d == 0 else src["n"] + 5 + d)
+                decoys.append(table({"ra": np.full(m, -1.0), "dec": np.zeros(m), "pid": np.zeros(m, dtype="i8")}))
+            src["hdu"] = 1 + ndecoy
+            afits.HDUList([afits.PrimaryHDU()] + decoys + [table(cols)]).writeto(src["path"], overwrite=True)
         else:
             src["path"] = base + ".pqt"
             if rng.random() < 0.65:
@@ -1224,7 +1235,7 @@ def world_run(ctx, readers, sources, slots, hops):
                 if src["kind"] == "df":
                     cat = impl.Catalog.from_dataframe(cache, src["df"], **kw)
                 else:
-                    cat = impl.Catalog.from_file(cache, src["path"], **kw)
+                    cat = impl.Catalog.from_file(cache, src["path"], **(dict(kw, hdu=src["hdu"]) if src["kind"] == "fits" else kw))
                 stored = sorted(r for rec in impl.patch_records(cat).values() for r in world_rows(rec["ra"], src["fid"]))
                 del cat
                 shutil.rmtree(cache, ignore_errors=True)
@@ -1251,7 +1262,7 @@ def world_run(ctx, readers, sources, slots, hops):
                     with parquet_logged(readers, logs[k]):
                         rds[k] = readers.new_filereader(src["path"], **common)
                 else:
-                    rds[k] = readers.new_filereader(src["path"], **common)
+                    rds[k] = readers.new_filereader(src["path"], **(dict(common, hdu=src["hdu"]) if src["kind"] == "fits" else common))
                 pos[k] = 0
                 emit(k, "LOpen", [])
             elif what == "close":
